@@ -66,6 +66,14 @@ def postconditions(model) -> dict[str, tuple[bool, object]]:
     }
 
 
+def _evaluate_config(cfg):
+    models.quiet()
+    try:
+        return {"post": postconditions(models.build(cfg))}
+    except Exception as e:  # noqa: BLE001
+        return {"error": f"{type(e).__name__}: {e}"[:300]}
+
+
 def build(chk: Check) -> None:
     models.quiet()
     chk.assume("bounded in the space of reactions: zoo x configurations (vlib/zoo.py, vlib/models.py)")
@@ -73,7 +81,14 @@ def build(chk: Check) -> None:
     chk.trust("SymPy free_symbols / atoms / xreplace")
     cfgs = models.config_space(chk.tier)
     n_models = 0
-    for cfg in cfgs:
+    # the models are independent: evaluate the postconditions in worker processes (history effects are C06's subject)
+    import concurrent.futures as cf
+    import multiprocessing as mp
+    import os
+
+    with cf.ProcessPoolExecutor(max_workers=min(16, os.cpu_count() or 4), mp_context=mp.get_context("fork")) as pool:
+        results = list(pool.map(_evaluate_config, cfgs, chunksize=4))
+    for cfg, res in zip(cfgs, results):
         def replay(_m, cfg=cfg):
             try:
                 post = postconditions(models.build(cfg))
@@ -82,14 +97,12 @@ def build(chk: Check) -> None:
             bad = {k: v[1] for k, v in post.items() if not v[0]}
             return {"reproduced": bool(bad), "input": cfg.tag, "observed": bad, "expected": "all four postconditions hold"}
 
-        try:
-            model = models.build(cfg)
-        except Exception as e:  # noqa: BLE001
-            chk.struct(f"formulate.succeeds[{cfg.tag}]", False, F, witness=f"{type(e).__name__}: {e}"[:300], replay=replay, bounded=True)
+        if "error" in res:
+            chk.struct(f"formulate.succeeds[{cfg.tag}]", False, F, witness=res["error"], replay=replay, bounded=True)
             continue
         n_models += 1
         chk.struct(f"formulate.succeeds[{cfg.tag}]", True, F, bounded=True)
-        for clause, (ok, wit) in postconditions(model).items():
+        for clause, (ok, wit) in res["post"].items():
             chk.struct(f"formulate.ens.{clause}[{cfg.tag}]", ok, F, witness={"config": cfg.tag, "offending": wit}, replay=replay, bounded=True)
     chk.extra["models_built"] = n_models
     chk.extra["configurations"] = len(cfgs)
